@@ -114,7 +114,8 @@ def _raise_sites(ctx, R, roles):
 
 
 def _is_payload(t):
-    alts = set(t[1]) if t[0] == "phi" else {t}
+    from ..terms import alts_of
+    alts = alts_of(t)
     return any(a[0] == "call" and isinstance(a[1], str) and a[1].endswith("_filesync_read_buffered") for a in alts)
 
 
